@@ -33,6 +33,11 @@ pub mod proto {
     pub mod reference { pub enum To { Local(String), External(super::QualifiedName) } }
     pub struct Reference { pub to: Option<reference::To> }
     pub struct Instance { pub name: String, pub cell: Option<Reference>, pub origin_location: Option<Point>, pub reflect_vert: bool, pub rotation_clockwise_degrees: i32 }
+    pub struct Layer { pub number: i64, pub purpose: i64 }
+    pub struct LayerShapes { pub layer: Option<Layer>, pub rectangles: Vec<Rectangle>, pub polygons: Vec<Polygon>, pub paths: Vec<Path> }
+    pub struct Layout { pub name: String, pub shapes: Vec<LayerShapes>, pub instances: Vec<Instance>, pub annotations: Vec<TextElement> }
+    impl Default for LayerShapes { fn default() -> (r: Self) ensures r.layer is None, r.rectangles@.len() == 0, r.polygons@.len() == 0, r.paths@.len() == 0 { LayerShapes { layer: None, rectangles: Vec::new(), polygons: Vec::new(), paths: Vec::new() } } }
+    impl Default for Layout { fn default() -> (r: Self) ensures r.name@.len() == 0, r.shapes@.len() == 0, r.instances@.len() == 0, r.annotations@.len() == 0 { Layout { name: String::new(), shapes: Vec::new(), instances: Vec::new(), annotations: Vec::new() } } }
     // prost messages derive Default: every field its type's default
     impl Default for Rectangle { fn default() -> (r: Self) ensures r.lower_left is None, r.width == 0, r.height == 0, r.net@.len() == 0 { Rectangle { net: String::new(), lower_left: None, width: 0, height: 0 } } }
     impl Default for Polygon { fn default() -> (r: Self) ensures r.vertices@.len() == 0, r.net@.len() == 0 { Polygon { net: String::new(), vertices: Vec::new() } } }
@@ -63,6 +68,19 @@ pub struct Cell { pub name: String }
 //@ end
 //@ item layout21raw/src/data.rs :: struct TextElement
 //@ end
+/// model of slotmap's LayerKey: an opaque copyable key
+#[derive(Debug, Clone, Copy)]
+pub struct LayerKey { pub id: u64 }
+//@ item layout21raw/src/data.rs :: enum LayerPurpose
+//@ end
+impl Clone for LayerPurpose { #[verifier::external_body] fn clone(&self) -> (r: Self) ensures r == *self { unimplemented!() } }
+//@ item layout21raw/src/data.rs :: struct Element
+//@ end
+//@ item layout21raw/src/data.rs :: struct Layout
+//@ end
+//@ item layout21raw/src/proto.rs :: enum ProtoShape
+//@   sub R4 /enum ProtoShape/ => pub enum ProtoShape
+//@ end
 impl Default for TextElement { fn default() -> (r: Self) ensures r.loc.x == 0, r.loc.y == 0 { TextElement { string: String::new(), loc: Point { x: 0, y: 0 } } } }
 impl Point {
 //@ fn layout21raw/src/geom.rs :: impl Point :: fn new
@@ -86,6 +104,26 @@ pub open spec fn same_pts(g: Seq<proto::Point>, p: Seq<Point>) -> bool { g.len()
 pub open spec fn small(p: Point) -> bool { -0x2000_0000_0000_0000 <= p.x <= 0x2000_0000_0000_0000 && -0x2000_0000_0000_0000 <= p.y <= 0x2000_0000_0000_0000 }
 pub open spec fn imin(a: int, b: int) -> int { if a <= b { a } else { b } }
 pub open spec fn imax(a: int, b: int) -> int { if a >= b { a } else { b } }
+/// protobuf rectangle `g` is raw rectangle `rc`: lower-left corner, width and height (corners normalised)
+pub open spec fn rect_is(g: proto::Rectangle, rc: Rect) -> bool {
+    &&& g.lower_left is Some &&& g.lower_left->0.x == imin(rc.p0.x as int, rc.p1.x as int) &&& g.lower_left->0.y == imin(rc.p0.y as int, rc.p1.y as int)
+    &&& g.width == imax(rc.p0.x as int, rc.p1.x as int) - imin(rc.p0.x as int, rc.p1.x as int)
+    &&& g.height == imax(rc.p0.y as int, rc.p1.y as int) - imin(rc.p0.y as int, rc.p1.y as int)
+}
+pub open spec fn poly_is(g: proto::Polygon, p: Polygon) -> bool { same_pts(g.vertices@, p.points@) }
+pub open spec fn path_is(g: proto::Path, p: Path) -> bool { same_pts(g.points@, p.points@) && g.width == p.width }
+pub open spec fn shape_small(s: Shape) -> bool { s is Rect ==> small(s->Rect_0.p0) && small(s->Rect_0.p1) }
+/// the exported shape has the same kind and geometry
+pub open spec fn shape_exp(g: ProtoShape, s: Shape) -> bool {
+    match s {
+        Shape::Rect(rc) => g is Rect && rect_is(g->Rect_0, rc),
+        Shape::Polygon(p) => g is Poly && poly_is(g->Poly_0, p),
+        Shape::Path(p) => g is Path && path_is(g->Path_0, p),
+    }
+}
+pub open spec fn pnet(g: ProtoShape) -> Seq<char> { match g { ProtoShape::Rect(r) => r.net@, ProtoShape::Poly(r) => r.net@, ProtoShape::Path(r) => r.net@ } }
+/// the schema stores "no net" as the empty string
+pub open spec fn net_exp(g: Seq<char>, net: Option<String>) -> bool { match net { Some(n) => g == n@, None => g.len() == 0 } }
 
 // =====================================================================================================
 // EXPORTER (layout21raw/src/proto.rs)
@@ -114,31 +152,54 @@ impl ProtoExporter {
 //@   sub R7 /net: ""\.into\(\),/ => net: String::new(),
 //@   spec
 //|     requires small(rect.p0), small(rect.p1),
-//|     ensures r is Ok ==> ({
-//|         let g = r->Ok_0;
-//|         &&& g.lower_left is Some &&& g.lower_left->0.x == imin(rect.p0.x as int, rect.p1.x as int) &&& g.lower_left->0.y == imin(rect.p0.y as int, rect.p1.y as int)
-//|         &&& g.width == imax(rect.p0.x as int, rect.p1.x as int) - imin(rect.p0.x as int, rect.p1.x as int)
-//|         &&& g.height == imax(rect.p0.y as int, rect.p1.y as int) - imin(rect.p0.y as int, rect.p1.y as int)
-//|     }),
+//|     ensures r is Ok, rect_is(r->Ok_0, *rect), r->Ok_0.net@.len() == 0,
 //@ end
 //@ fn layout21raw/src/proto.rs :: impl<'lib> ProtoExporter<'lib> :: fn export_polygon
 //@   ret r
 //@   sub R7 /net: ""\.into\(\),/ => net: String::new(),
 //@   sub R6 /poly\s*\.points\s*\.iter\(\)\s*\.map\(\|p\| self\.export_point\(p\)\)\s*\.collect::<Result<Vec<_>, _>>\(\)\?/ => self.vp_export_points(&poly.points)?
 //@   spec
-//|     ensures r is Ok ==> same_pts(r->Ok_0.vertices@, poly.points@),
+//|     ensures r is Ok ==> poly_is(r->Ok_0, *poly) && r->Ok_0.net@.len() == 0,
 //@ end
 //@ fn layout21raw/src/proto.rs :: impl<'lib> ProtoExporter<'lib> :: fn export_path
 //@   ret r
 //@   sub R7 /net: ""\.into\(\),/ => net: String::new(),
 //@   sub R6 /path\s*\.points\s*\.iter\(\)\s*\.map\(\|p\| self\.export_point\(p\)\)\s*\.collect::<Result<Vec<_>, _>>\(\)\?/ => self.vp_export_points(&path.points)?
 //@   spec
-//|     ensures r is Ok ==> same_pts(r->Ok_0.points@, path.points@) && r->Ok_0.width == path.width,
+//|     ensures r is Ok ==> path_is(r->Ok_0, *path) && r->Ok_0.net@.len() == 0,
 //@ end
 //@ fn layout21raw/src/proto.rs :: impl<'lib> ProtoExporter<'lib> :: fn export_annotation
 //@   ret r
 //@   spec
 //|     ensures r is Ok ==> r->Ok_0.string@ == text.string@ && r->Ok_0.loc is Some && same_pt(r->Ok_0.loc->0, text.loc),
+//@ end
+//@ fn layout21raw/src/proto.rs :: impl<'lib> ProtoExporter<'lib> :: fn export_shape
+//@   ret r
+//@   spec
+//|     requires shape_small(*shape),
+//|     ensures r is Ok ==> shape_exp(r->Ok_0, *shape) && pnet(r->Ok_0).len() == 0,
+//|         shape is Rect ==> r is Ok,
+//@ end
+//@ fn layout21raw/src/proto.rs :: impl<'lib> ProtoExporter<'lib> :: fn export_element
+//@   ret r
+//@   sub R5 /net\.to_string\(\)/ => net.clone()
+//@   spec
+//|     requires shape_small(elem.inner),
+//|     ensures r is Ok ==> shape_exp(r->Ok_0, elem.inner) && net_exp(pnet(r->Ok_0), elem.net),
+//@ end
+//@ fn layout21raw/src/proto.rs :: impl<'lib> ProtoExporter<'lib> :: fn export_and_add_shape
+//@   ret r
+//@   spec
+//|     requires shape_small(*shape),
+//|     ensures r is Ok ==> final(pshapes).layer == old(pshapes).layer && (match *shape {
+//|         // the shape is appended to the list of its own kind; the two other lists are untouched
+//|         Shape::Rect(rc) => final(pshapes).rectangles@.len() == old(pshapes).rectangles@.len() + 1 && final(pshapes).rectangles@.drop_last() == old(pshapes).rectangles@
+//|             && rect_is(final(pshapes).rectangles@.last(), rc) && final(pshapes).polygons@ == old(pshapes).polygons@ && final(pshapes).paths@ == old(pshapes).paths@,
+//|         Shape::Polygon(p) => final(pshapes).polygons@.len() == old(pshapes).polygons@.len() + 1 && final(pshapes).polygons@.drop_last() == old(pshapes).polygons@
+//|             && poly_is(final(pshapes).polygons@.last(), p) && final(pshapes).rectangles@ == old(pshapes).rectangles@ && final(pshapes).paths@ == old(pshapes).paths@,
+//|         Shape::Path(p) => final(pshapes).paths@.len() == old(pshapes).paths@.len() + 1 && final(pshapes).paths@.drop_last() == old(pshapes).paths@
+//|             && path_is(final(pshapes).paths@.last(), p) && final(pshapes).rectangles@ == old(pshapes).rectangles@ && final(pshapes).polygons@ == old(pshapes).polygons@,
+//|     }),
 //@ end
     /// the float side of export_angle is outside the verifier: ASSUMED contract (whole degrees or an error), see DESIGN
     #[verifier::external_body]
@@ -200,44 +261,42 @@ impl ProtoImporter {
 //@ fn layout21raw/src/proto.rs :: impl ProtoImporter :: fn import_point
 //@   ret r
 //@   spec
-//|     ensures r is Ok, same_pt(*pt, r->Ok_0), final(self).cell_map == old(self).cell_map,
+//|     ensures r is Ok, same_pt(*pt, r->Ok_0), final(self).cell_map == old(self).cell_map, final(self).ctx == old(self).ctx,
 //@ end
     /// ASSUMED element-wise contract of the iterator idiom (rule R6)
     #[verifier::external_body]
     fn import_point_vec(&mut self, points: &Vec<proto::Point>) -> (r: LayoutResult<Vec<Point>>)
-        ensures r is Ok, same_pts(points@, r->Ok_0@), final(self).cell_map == old(self).cell_map,
+        ensures r is Ok, same_pts(points@, r->Ok_0@), final(self).cell_map == old(self).cell_map, final(self).ctx == old(self).ctx,
     { unimplemented!() }
 //@ fn layout21raw/src/proto.rs :: impl ProtoImporter :: fn import_polygon
 //@   ret r
 //@   spec
-//|     ensures r is Ok ==> (match r->Ok_0 { Shape::Polygon(p) => same_pts(ppoly.vertices@, p.points@), _ => false }),
+//|     ensures final(self).cell_map == old(self).cell_map, final(self).ctx == old(self).ctx, r is Ok ==> poly_imp(r->Ok_0, *ppoly),
 //@ end
 //@ fn layout21raw/src/proto.rs :: impl ProtoImporter :: fn import_rect
 //@   ret r
 //@   spec
-//|     requires prect.lower_left is Some ==> (-0x2000_0000_0000_0000 <= prect.lower_left->0.x <= 0x2000_0000_0000_0000 && -0x2000_0000_0000_0000 <= prect.lower_left->0.y <= 0x2000_0000_0000_0000),
-//|         -0x2000_0000_0000_0000 <= prect.width <= 0x2000_0000_0000_0000, -0x2000_0000_0000_0000 <= prect.height <= 0x2000_0000_0000_0000,
-//|     ensures r is Ok ==> (match r->Ok_0 { Shape::Rect(rc) => prect.lower_left is Some && same_pt(prect.lower_left->0, rc.p0)
-//|             && rc.p1.x == rc.p0.x + prect.width && rc.p1.y == rc.p0.y + prect.height, _ => false }),
+//|     requires rect_small(*prect),
+//|     ensures final(self).cell_map == old(self).cell_map, final(self).ctx == old(self).ctx, r is Ok ==> rect_imp(r->Ok_0, *prect),
 //|         prect.lower_left is None ==> r is Err,
 //@ end
 //@ fn layout21raw/src/proto.rs :: impl ProtoImporter :: fn import_path
 //@   ret r
 //@   spec
-//|     ensures r is Ok ==> (match r->Ok_0 { Shape::Path(p) => same_pts(x.points@, p.points@) && p.width == x.width && x.width >= 0, _ => false }),
+//|     ensures final(self).cell_map == old(self).cell_map, final(self).ctx == old(self).ctx, r is Ok ==> path_imp(r->Ok_0, *x),
 //|         x.width < 0 ==> r is Err,
 //@ end
 //@ fn layout21raw/src/proto.rs :: impl ProtoImporter :: fn import_annotation
 //@   ret r
 //@   spec
-//|     ensures r is Ok ==> x.loc is Some && same_pt(x.loc->0, r->Ok_0.loc) && r->Ok_0.string@ == x.string@,
+//|     ensures final(self).cell_map == old(self).cell_map, final(self).ctx == old(self).ctx, r is Ok ==> x.loc is Some && same_pt(x.loc->0, r->Ok_0.loc) && r->Ok_0.string@ == x.string@,
 //|         x.loc is None ==> r is Err,
 //@ end
 //@ fn layout21raw/src/proto.rs :: impl ProtoImporter :: fn import_reference
 //@   ret r
 //@   sub R5 /let cellname: &str = match pref_to/ => let cellname: &String = match pref_to
 //@   spec
-//|     ensures final(self).cell_map == old(self).cell_map,
+//|     ensures final(self).cell_map == old(self).cell_map, final(self).ctx == old(self).ctx,
 //|         r is Ok ==> pinst.cell is Some && pinst.cell->0.to is Some && pinst.cell->0.to->0 is Local
 //|             && old(self).cell_map.lookup(pinst.cell->0.to->0->Local_0@) == Some(r->Ok_0),
 //|         // a missing reference, an external reference or an undefined cell is an error, not a crash
@@ -248,16 +307,156 @@ impl ProtoImporter {
 //@   ret r
 //@   sub R11 /Some\(f64::from\(pinst\.rotation_clockwise_degrees\)\)/ => Some(vp_f64_from_i32(pinst.rotation_clockwise_degrees))
 //@   spec
-//|     ensures r is Ok ==> ({
-//|         let i = r->Ok_0;
-//|         &&& i.inst_name@ == pinst.name@ &&& i.reflect_vert == pinst.reflect_vert
-//|         &&& pinst.origin_location is Some && same_pt(pinst.origin_location->0, i.loc)
-//|         &&& pinst.cell is Some && pinst.cell->0.to is Some && pinst.cell->0.to->0 is Local && old(self).cell_map.lookup(pinst.cell->0.to->0->Local_0@) == Some(i.cell)
-//|         &&& (pinst.rotation_clockwise_degrees == 0 ==> i.angle is None)
-//|         &&& (pinst.rotation_clockwise_degrees != 0 ==> i.angle == Some(degrees_f64(pinst.rotation_clockwise_degrees)))
-//|     }),
+//|     ensures final(self).cell_map == old(self).cell_map, r is Ok ==> final(self).ctx@ == old(self).ctx@ && inst_imp(r->Ok_0, *pinst, old(self).cell_map),
 //|         pinst.origin_location is None ==> r is Err,
+//@   before /^        Ok\(inst\)$/
+//|         proof { assert(self.ctx@ =~= old(self).ctx@); }
 //@ end
+    /// model of ProtoImporter::import_layer (looks the (number, purpose) pair up in / adds it to the shared layer table): ASSUMED to be a function of the pair
+    #[verifier::external_body]
+    fn import_layer(&mut self, player: &proto::Layer) -> (r: LayoutResult<(LayerKey, LayerPurpose)>)
+        ensures final(self).cell_map == old(self).cell_map, final(self).ctx == old(self).ctx, r is Ok ==> r->Ok_0 == layer_of(player.number, player.purpose),
+    { unimplemented!() }
+//@ fn layout21raw/src/proto.rs :: impl ProtoImporter :: fn convert_shape
+//@   ret r
+//@   sub R5 /net: &str,/ => net: &String,
+//@   sub R5 /net\.is_empty\(\)/ => vp_str_is_empty(net)
+//@   sub R5 /net\.to_string\(\)/ => net.clone()
+//@   spec
+//|     ensures final(self).cell_map == old(self).cell_map, final(self).ctx == old(self).ctx,
+//|         r is Ok, r->Ok_0.inner == inner, r->Ok_0.layer == layer, r->Ok_0.purpose == purpose, net_imp(r->Ok_0.net, net@),
+//@ end
+//@ fn layout21raw/src/proto.rs :: impl ProtoImporter :: fn import_layer_shapes
+//@   ret r
+//@   sub R6 /for shape in &player\.rectangles \{/ => for shape in player.rectangles.iter() {
+//@   sub R6 /for shape in &player\.polygons \{/ => for shape in player.polygons.iter() {
+//@   sub R6 /for shape in &player\.paths \{/ => for shape in player.paths.iter() {
+//@   spec
+//|     requires layer_small(*player),
+//|     ensures final(self).cell_map == old(self).cell_map,
+//|         r is Ok ==> final(self).ctx@ == old(self).ctx@ && chunk_is(r->Ok_0@, *player),
+//|         player.layer is None ==> r is Err,
+//@   loop 1 iter it
+//|             invariant self.cell_map == old(self).cell_map, self.ctx@ == old(self).ctx@.push(ErrorContext::Geometry), layer_small(*player), player.layer is Some,
+//|                 (layer, purpose) == layer_of(player.layer->0.number, player.layer->0.purpose), it.index@ <= player.rectangles@.len(),
+//|                 elems@.len() == it.index@, forall|i: int| 0 <= i < it.index@ ==> elem_rect(#[trigger] elems@[i], player.rectangles@[i], layer, purpose),
+//@   loop 2 iter it
+//|             invariant self.cell_map == old(self).cell_map, self.ctx@ == old(self).ctx@.push(ErrorContext::Geometry), player.layer is Some,
+//|                 (layer, purpose) == layer_of(player.layer->0.number, player.layer->0.purpose), it.index@ <= player.polygons@.len(),
+//|                 elems@.len() == player.rectangles@.len() + it.index@,
+//|                 forall|i: int| 0 <= i < player.rectangles@.len() ==> elem_rect(#[trigger] elems@[i], player.rectangles@[i], layer, purpose),
+//|                 forall|i: int| 0 <= i < it.index@ ==> elem_poly(#[trigger] elems@[player.rectangles@.len() + i], player.polygons@[i], layer, purpose),
+//@   loop 3 iter it
+//|             invariant self.cell_map == old(self).cell_map, self.ctx@ == old(self).ctx@.push(ErrorContext::Geometry), player.layer is Some,
+//|                 (layer, purpose) == layer_of(player.layer->0.number, player.layer->0.purpose), it.index@ <= player.paths@.len(),
+//|                 elems@.len() == player.rectangles@.len() + player.polygons@.len() + it.index@,
+//|                 forall|i: int| 0 <= i < player.rectangles@.len() ==> elem_rect(#[trigger] elems@[i], player.rectangles@[i], layer, purpose),
+//|                 forall|i: int| 0 <= i < player.polygons@.len() ==> elem_poly(#[trigger] elems@[player.rectangles@.len() + i], player.polygons@[i], layer, purpose),
+//|                 forall|i: int| 0 <= i < it.index@ ==> elem_path(#[trigger] elems@[player.rectangles@.len() + player.polygons@.len() + i], player.paths@[i], layer, purpose),
+//@   before /^        Ok\(elems\)$/
+//|         proof { assert(self.ctx@ =~= old(self).ctx@); }
+//@ end
+}
+/// raw instance `i` is the import of protobuf instance `g`: name, reflection, location, the referenced cell looked up by name, rotation (0 = none)
+pub open spec fn inst_imp(i: Instance, g: proto::Instance, m: CellMap) -> bool {
+    &&& i.inst_name@ == g.name@ &&& i.reflect_vert == g.reflect_vert
+    &&& g.origin_location is Some && same_pt(g.origin_location->0, i.loc)
+    &&& g.cell is Some && g.cell->0.to is Some && g.cell->0.to->0 is Local && m.lookup(g.cell->0.to->0->Local_0@) == Some(i.cell)
+    &&& (g.rotation_clockwise_degrees == 0 ==> i.angle is None)
+    &&& (g.rotation_clockwise_degrees != 0 ==> i.angle == Some(degrees_f64(g.rotation_clockwise_degrees)))
+}
+/// the elements of a layout are the imports of its protobuf layers, layer after layer
+pub open spec fn elems_are(es: Seq<Element>, ls: Seq<proto::LayerShapes>) -> bool decreases ls.len() {
+    if ls.len() == 0 { es.len() == 0 } else {
+        let n = chunk_len(ls.last());
+        es.len() >= n && elems_are(es.take(es.len() - n), ls.drop_last()) && chunk_is(es.skip(es.len() - n), ls.last())
+    }
+}
+pub open spec fn layers_small(ls: Seq<proto::LayerShapes>) -> bool { forall|i: int| 0 <= i < ls.len() ==> layer_small(#[trigger] ls[i]) }
+/// model of `Vec::extend(Vec)` (rule R6): appends the elements in order
+#[verifier::external_body]
+pub fn vp_extend_elems(v: &mut Vec<Element>, w: Vec<Element>) ensures final(v)@ == old(v)@ + w@ { v.extend(w) }
+impl Default for Layout { fn default() -> (r: Self) ensures r.name@.len() == 0, r.insts@.len() == 0, r.elems@.len() == 0, r.annotations@.len() == 0 { Layout { name: String::new(), insts: Vec::new(), elems: Vec::new(), annotations: Vec::new() } } }
+impl ProtoImporter {
+//@ fn layout21raw/src/proto.rs :: impl ProtoImporter :: fn import_layout
+//@   ret r
+//@   sub R6 /for inst in &playout\.instances \{/ => for inst in playout.instances.iter() {
+//@   sub R6 /for s in &playout\.shapes \{/ => for s in playout.shapes.iter() {
+//@   sub R6 /for txt in &playout\.annotations \{/ => for txt in playout.annotations.iter() {
+//@   sub R6 /cell\.elems\.extend\(self\.import_layer_shapes\(s\)\?\);/ => vp_extend_elems(&mut cell.elems, self.import_layer_shapes(s)?);
+//@   spec
+//|     requires layers_small(playout.shapes@),
+//|     ensures final(self).cell_map == old(self).cell_map,
+//|         r is Ok ==> ({
+//|             let c = r->Ok_0;
+//|             &&& final(self).ctx@ == old(self).ctx@ &&& c.name@ == playout.name@
+//|             // one instance per protobuf instance, in order
+//|             &&& c.insts@.len() == playout.instances@.len() &&& forall|i: int| 0 <= i < playout.instances@.len() ==> inst_imp(#[trigger] c.insts@[i], playout.instances@[i], old(self).cell_map)
+//|             // every shape of every layer, in order
+//|             &&& elems_are(c.elems@, playout.shapes@)
+//|             // one annotation per protobuf text, in order
+//|             &&& c.annotations@.len() == playout.annotations@.len()
+//|             &&& forall|i: int| 0 <= i < playout.annotations@.len() ==> (#[trigger] playout.annotations@[i]).loc is Some && same_pt(playout.annotations@[i].loc->0, c.annotations@[i].loc) && c.annotations@[i].string@ == playout.annotations@[i].string@
+//|         }),
+//@   loop 1 iter it
+//|             invariant self.cell_map == old(self).cell_map, self.ctx@ == old(self).ctx@.push(ErrorContext::Impl), layers_small(playout.shapes@), cell.name@ == playout.name@,
+//|                 cell.elems@.len() == 0, cell.annotations@.len() == 0, cell.insts@.len() == it.index@, it.index@ <= playout.instances@.len(),
+//|                 forall|i: int| 0 <= i < it.index@ ==> inst_imp(#[trigger] cell.insts@[i], playout.instances@[i], self.cell_map),
+//@   loop 2 iter it
+//|             invariant self.cell_map == old(self).cell_map, self.ctx@ == old(self).ctx@.push(ErrorContext::Impl), layers_small(playout.shapes@), cell.name@ == playout.name@,
+//|                 cell.annotations@.len() == 0, cell.insts@.len() == playout.instances@.len(), it.index@ <= playout.shapes@.len(),
+//|                 forall|i: int| 0 <= i < playout.instances@.len() ==> inst_imp(#[trigger] cell.insts@[i], playout.instances@[i], self.cell_map),
+//|                 elems_are(cell.elems@, playout.shapes@.take(it.index@ as int)),
+//@   before /vp_extend_elems\(&mut cell\.elems/
+//|             let ghost e0 = cell.elems@;
+//@   loopend 2
+//|             proof {
+//|                 let t1 = playout.shapes@.take(it.index@ + 1); let n = chunk_len(*s);
+//|                 assert(t1.drop_last() == playout.shapes@.take(it.index@ as int)); assert(t1.last() == *s);
+//|                 assert(cell.elems@.len() == e0.len() + n);
+//|                 assert(cell.elems@.take(cell.elems@.len() - n) =~= e0);
+//|                 assert(chunk_is(cell.elems@.skip(cell.elems@.len() - n), *s)) by { assert(cell.elems@.skip(cell.elems@.len() - n) =~= cell.elems@.skip(e0.len() as int)); }
+//|             }
+//@   loop 3 iter it
+//|             invariant self.cell_map == old(self).cell_map, self.ctx@ == old(self).ctx@.push(ErrorContext::Impl), cell.name@ == playout.name@,
+//|                 cell.insts@.len() == playout.instances@.len(), it.index@ <= playout.annotations@.len(), cell.annotations@.len() == it.index@,
+//|                 forall|i: int| 0 <= i < playout.instances@.len() ==> inst_imp(#[trigger] cell.insts@[i], playout.instances@[i], self.cell_map),
+//|                 elems_are(cell.elems@, playout.shapes@),
+//|                 forall|i: int| 0 <= i < it.index@ ==> (#[trigger] playout.annotations@[i]).loc is Some && same_pt(playout.annotations@[i].loc->0, cell.annotations@[i].loc) && cell.annotations@[i].string@ == playout.annotations@[i].string@,
+//@   before /for txt in playout\.annotations\.iter\(\) \{/
+//|         proof { assert(playout.shapes@.take(playout.shapes@.len() as int) == playout.shapes@); }
+//@   before /^        Ok\(cell\)$/
+//|         proof { assert(self.ctx@ =~= old(self).ctx@); }
+//@ end
+}
+/// R5: `str::is_empty` on a String's contents
+#[verifier::external_body]
+pub fn vp_str_is_empty(s: &String) -> (r: bool) ensures r == (s@.len() == 0) { s.is_empty() }
+/// the (LayerKey, LayerPurpose) the shared layer table gives a (number, purpose) pair — assumption (import_layer is modelled)
+pub uninterp spec fn layer_of(number: i64, purpose: i64) -> (LayerKey, LayerPurpose);
+/// the empty string means "no net"
+pub open spec fn net_imp(net: Option<String>, g: Seq<char>) -> bool { if g.len() == 0 { net is None } else { net is Some && net->0@ == g } }
+pub open spec fn rect_small(g: proto::Rectangle) -> bool {
+    (g.lower_left is Some ==> (-0x2000_0000_0000_0000 <= g.lower_left->0.x <= 0x2000_0000_0000_0000 && -0x2000_0000_0000_0000 <= g.lower_left->0.y <= 0x2000_0000_0000_0000))
+    && -0x2000_0000_0000_0000 <= g.width <= 0x2000_0000_0000_0000 && -0x2000_0000_0000_0000 <= g.height <= 0x2000_0000_0000_0000
+}
+pub open spec fn layer_small(l: proto::LayerShapes) -> bool { forall|i: int| 0 <= i < l.rectangles@.len() ==> rect_small(#[trigger] l.rectangles@[i]) }
+/// raw rectangle from a protobuf one: p0 the lower-left corner, p1 = p0 + (width, height)
+pub open spec fn rect_imp(s: Shape, g: proto::Rectangle) -> bool {
+    match s { Shape::Rect(rc) => g.lower_left is Some && same_pt(g.lower_left->0, rc.p0) && rc.p1.x == rc.p0.x + g.width && rc.p1.y == rc.p0.y + g.height, _ => false }
+}
+pub open spec fn poly_imp(s: Shape, g: proto::Polygon) -> bool { match s { Shape::Polygon(p) => same_pts(g.vertices@, p.points@), _ => false } }
+pub open spec fn path_imp(s: Shape, g: proto::Path) -> bool { match s { Shape::Path(p) => same_pts(g.points@, p.points@) && p.width == g.width && g.width >= 0, _ => false } }
+pub open spec fn elem_rect(e: Element, g: proto::Rectangle, k: LayerKey, p: LayerPurpose) -> bool { e.layer == k && e.purpose == p && net_imp(e.net, g.net@) && rect_imp(e.inner, g) }
+pub open spec fn elem_poly(e: Element, g: proto::Polygon, k: LayerKey, p: LayerPurpose) -> bool { e.layer == k && e.purpose == p && net_imp(e.net, g.net@) && poly_imp(e.inner, g) }
+pub open spec fn elem_path(e: Element, g: proto::Path, k: LayerKey, p: LayerPurpose) -> bool { e.layer == k && e.purpose == p && net_imp(e.net, g.net@) && path_imp(e.inner, g) }
+pub open spec fn chunk_len(l: proto::LayerShapes) -> int { (l.rectangles@.len() + l.polygons@.len() + l.paths@.len()) as int }
+/// `es` is the import of one protobuf layer: its rectangles, then its polygons, then its paths, each on the layer's key and purpose with its own net
+pub open spec fn chunk_is(es: Seq<Element>, l: proto::LayerShapes) -> bool {
+    &&& l.layer is Some &&& es.len() == chunk_len(l)
+    &&& forall|i: int| 0 <= i < l.rectangles@.len() ==> elem_rect(#[trigger] es[i], l.rectangles@[i], layer_of(l.layer->0.number, l.layer->0.purpose).0, layer_of(l.layer->0.number, l.layer->0.purpose).1)
+    &&& forall|i: int| 0 <= i < l.polygons@.len() ==> elem_poly(#[trigger] es[l.rectangles@.len() + i], l.polygons@[i], layer_of(l.layer->0.number, l.layer->0.purpose).0, layer_of(l.layer->0.number, l.layer->0.purpose).1)
+    &&& forall|i: int| 0 <= i < l.paths@.len() ==> elem_path(#[trigger] es[l.rectangles@.len() + l.polygons@.len() + i], l.paths@[i], layer_of(l.layer->0.number, l.layer->0.purpose).0, layer_of(l.layer->0.number, l.layer->0.purpose).1)
 }
 /// C14 (shapes): export then import gives the same point lists; a rectangle comes back with its corners normalised (p0 = lower-left, p1 = upper-right)
 proof fn lemma_pts_roundtrip(p: Seq<Point>, g: Seq<proto::Point>, q: Seq<Point>) requires same_pts(g, p), same_pts(g, q) ensures p =~= q {
